@@ -158,6 +158,24 @@ def far_pass(ctx, L, units):
                         ctx.fail(JC.FN[u.sys], list(u.key) + [prev[0], arg], 'points(%s) <= points(%s) = %d (slower hand-timed mark)' % (arg, prev[0], prev[1]), '%d' % pnt,
                                  note='mono: hand-timed text far beyond the table', replay_py='result = (%s, %s)' % (JC.c05_replay(u, prev[0]), JC.c05_replay(u, arg)))
                     prev = (arg, pnt)
+        if u.sys == 'ty' and u.timed:
+            # marks of an hour and more written h:mm:ss.xx: the same points as the number and as m:ss.xx, and still monotone
+            prevh = None
+            for k in (359998, 359999, 360000, 360001, 360100, 365999, 366000, 400000, 719999, 720000, 1080000):
+                hms = '%d:%02d:%02d.%02d' % (k // 360000, k % 360000 // 6000, k % 6000 // 100, k % 100)
+                rs = [(a, JC.canon(JC.c05_call(L, u, a))) for a in (k / 100.0, JC.mss(k), hms)]
+                ctx.count(3, 'calls_variants')
+                if not all(r.startswith('p ') for _, r in rs): prevh = None; continue
+                if len({r for _, r in rs}) != 1:
+                    nv += 1
+                    ctx.fail(JC.FN[u.sys], list(u.key) + [rs[0][0], rs[2][0]], 'the same points for %r, %r and %r' % tuple(a for a, _ in rs), ', '.join('%r -> %s' % (a, r[2:]) for a, r in rs),
+                             note='form: an hour or more written h:mm:ss.xx', replay_py='result = (%s, %s, %s)' % tuple(JC.c05_replay(u, a) for a, _ in rs))
+                pnt = int(rs[2][1][2:])
+                if prevh is not None and pnt > prevh[1]:
+                    nv += 1
+                    ctx.fail(JC.FN[u.sys], list(u.key) + [prevh[0], hms], 'points(%s) <= points(%s) = %d (slower mark)' % (hms, prevh[0], prevh[1]), '%d' % pnt,
+                             note='mono: an hour or more written h:mm:ss.xx', replay_py='result = (%s, %s)' % (JC.c05_replay(u, prevh[0]), JC.c05_replay(u, hms)))
+                prevh = (hms, pnt)
     ctx.stats['tables_swept_far_beyond'] = len(seen)
     return nv
 
